@@ -79,18 +79,25 @@ class HostPool(object):
 
         yield from self._condition.acquire()
 
-        while True:
-            if self.ready:
-                connection = self.ready.pop()
-                break
-            elif len(self.busy) < self.max_connections:
-                connection = self._connection_factory()
-                break
-            else:
-                yield from self._condition.wait()
+        try:
+            while True:
+                if self.ready:
+                    connection = self.ready.pop()
+                    break
+                elif len(self.busy) < self.max_connections:
+                    connection = self._connection_factory()
+                    break
+                else:
+                    yield from self._condition.wait()
 
-        self.busy.add(connection)
-        self._condition.release()
+            self.busy.add(connection)
+        except BaseException:
+            # Cancelled while waiting. Condition.wait() has reacquired the
+            # lock; pass on the wake-up this waiter may have consumed.
+            self._condition.notify()
+            raise
+        finally:
+            self._condition.release()
 
         return connection
 
@@ -197,7 +204,19 @@ class ConnectionPool(object):
 
         _logger.debug('Check out %s', key)
 
-        connection = yield from host_pool.acquire()
+        try:
+            connection = yield from host_pool.acquire()
+        except BaseException:
+            # No longer waiting (cancelled). Undo the waiter accounting and
+            # drop the host pool if nothing else keeps it alive.
+            self._host_pool_waiters[key] -= 1
+
+            if not self._host_pool_waiters[key] and host_pool.empty():
+                del self._host_pools[key]
+                del self._host_pool_waiters[key]
+
+            raise
+
         connection.key = key
 
         # TODO: Verify this assert is always true
